@@ -66,6 +66,17 @@ impl SLIT {
     /// Set the relative locality distance between two domains
     /// (10-254, 10 is the value from one node to itself).
     pub fn set_distance(&mut self, domain_a: usize, domain_b: usize, locality_value: u8) {
+        if domain_a == domain_b {
+            // A diagonal cell is a single byte: account for it once.
+            let idx = domain_a + self.localities as usize * domain_b;
+            let old_value = self.entries[idx];
+            self.entries[idx] = locality_value;
+            self.checksum.delete(&[old_value]);
+            self.checksum.append(&[locality_value]);
+            self.header.checksum = self.checksum.value();
+            return;
+        }
+
         let old_values = [
             self.entries[domain_a + self.localities as usize * domain_b],
             self.entries[domain_b + self.localities as usize * domain_a],
